@@ -59,6 +59,17 @@ ShapesUpTo(N) ==
 
 Shapes(N) == ShapesUpTo(N)
 
+(* `PeerCache::add_command` as a pure function: `anc` = ancestor relation (node -> strict
+   ancestors), `committed` = locally committed nodes, `c` = cache (sequence), (n, ok) = address.
+   See PeerCache.tla for the transcription notes. *)
+CacheAdd(anc, committed, cap, c, n, ok) ==
+  IF ~(ok /\ n \in committed) THEN c
+  ELSE LET Blocks(old) == old = n \/ n \in anc[old]       \* keep old, do not add
+           Evicted(old) == ~Blocks(old) /\ old \in anc[n]
+           kept == SelectSeq(c, LAMBDA old : ~Evicted(old))
+           add == \A i \in 1..Len(c) : ~Blocks(c[i])
+       IN IF add /\ Len(kept) < cap THEN Append(kept, n) ELSE kept
+
 (* a star: init and W children of it *)
 Star(W) == [n \in 1..(W + 1) |-> IF n = 1 THEN {} ELSE {1}]
 =============================================================================
